@@ -217,8 +217,14 @@ def numeric_stream(ctx, nenv):
                 ctx.oracle_fail('loaded-jacobian-raises', '%s.%s raised %r' % (g['model'], jf['fn'], ex), {'model': g['model']})
                 continue
             for k, ent in enumerate(jf['entries']):
+                if 'atan2' in ent['decl']:
+                    # `D` has no rule for atan2 of the differentiation variable (WD excludes it): such entries are
+                    # outside the fragment and only covered when a stock case exercises the model
+                    ctx.count('entries_outside_D_fragment')
+                    continue
                 lines.append('evd %d %s | %s' % (ent['col'], ent['decl'], env_txt))
                 meta.append((g['model'], jf['fn'], ent['name'], [float(np.real(r[k])) if k < len(r) else float('nan') for r in rets]))
+    
     outs = ctx.driver.ask(lines)
     for (model, fn, name, vals), o in zip(meta, outs):
         if o in ('bad-expr', 'bad-op'):
